@@ -376,10 +376,21 @@ func c13Target(name string) (c13Exec, c13Spec, func(r *Rng, g int) string, error
 	case "formatted":
 		e, err := c13KVExec(formattedstore.NewProvider(mem.NewProvider(), exampleformatters.NewBase64Formatter(true)))
 		return e, c13KVSpec, kvGen, err
-	case "kms":
-		km := c04NewKMS()
+	case "kms", "kms2":
+		// kms2: TWO key managers over ONE store and one master key (two services of a process, or two processes over a
+		// shared database): the third word of an operation names the instance. "This id is free" followed by the write
+		// under it must be atomic for the store, not for the instance.
+		shared := mem.NewProvider()
+		kms := []kmsapi.KeyManager{c04NewKMSOver(shared)}
+		if name == "kms2" {
+			kms = append(kms, c04NewKMSOver(shared))
+		}
 		exec := func(op string) string {
 			f := strings.Split(op, " ")
+			km := kms[0]
+			if len(f) == 3 && f[2] == "i1" && len(kms) > 1 {
+				km = kms[1]
+			}
 			if f[0] == "import" {
 				priv, _ := c04Import("ed25519")
 				if _, _, err := km.ImportPrivateKey(priv, kmsapi.ED25519Type, kmsapi.WithKeyID(f[1])); err != nil {
@@ -394,10 +405,14 @@ func c13Target(name string) (c13Exec, c13Spec, func(r *Rng, g int) string, error
 		}
 		gen := func(r *Rng, g int) string {
 			id := r.Pick([]string{"id-a", "id-b"})
-			if r.N(3) == 0 {
-				return "get " + id
+			inst := ""
+			if name == "kms2" {
+				inst = fmt.Sprintf(" i%d", g%2)
 			}
-			return "import " + id
+			if r.N(3) == 0 {
+				return "get " + id + inst
+			}
+			return "import " + id + inst
 		}
 		return exec, c13KMSSpec, gen, nil
 	case "session":
@@ -714,7 +729,7 @@ func c13Gen(r *Rng, tier string) []string {
 	if tier == "thorough" {
 		n = 30000
 	}
-	targets := []string{"mem", "cached", "batched", "formatted", "kms", "session", "pickup", "wsave"}
+	targets := []string{"mem", "cached", "batched", "formatted", "kms", "kms2", "session", "pickup", "wsave"}
 	var out []string
 	for i := 0; i < n; i++ {
 		g := 2 + r.N(7)
